@@ -661,16 +661,16 @@ Proof.
   lia.
 Qed.
 
-Lemma QOK_next : forall U g lk qr c ls,
+Lemma QOK_next : forall U g lk qr c ls t,
   QOK U g (QLookup lk qr c ls) ->
-  L.done (fst (L.next_action c ls 0)) = false ->
-  QOK U g (QLookup lk qr c (fst (L.next_action c ls 0))).
+  L.done (fst (L.next_action c ls t)) = false ->
+  QOK U g (QLookup lk qr c (fst (L.next_action c ls t))).
 Proof.
-  intros U g lk qr c ls (H1 & H2 & H3 & H4 & H5) Hd. cbn [QOK].
-  split; [apply LI1_next; exact H1 |]. split; [apply (LP.cands_in_step c U ls (L.ENext 0) I H2) |].
+  intros U g lk qr c ls t (H1 & H2 & H3 & H4 & H5) Hd. cbn [QOK].
+  split; [apply LI1_next; exact H1 |]. split; [apply (LP.cands_in_step c U ls (L.ENext t) I H2) |].
   split; [exact H3 |]. split; [| exact Hd].
-  pose proof (LP.next_action_shape c ls 0) as Sh.
-  assert (R : L.resps (fst (L.next_action c ls 0)) = L.resps ls).
+  pose proof (LP.next_action_shape c ls t) as Sh.
+  assert (R : L.resps (fst (L.next_action c ls t)) = L.resps ls).
   { inversion Sh; subst; try tauto;
       match goal with H : LP.same7 _ _ |- _ => destruct H as (_ & _ & _ & Rr & _); exact Rr end. }
   rewrite R. exact H4.
@@ -694,13 +694,13 @@ Proof.
               (true = true -> (M U g (start_track (del_q s q) pv q l qr) < M U g s)%nat)).
     { intros pv l Hl. destruct (start_track_M U g s pv q l qr _ HB Eq) as [B1 E1]. split; [exact B1 |].
       cbn [qW] in E1. split; [lia | intros _; lia]. }
-    pose proof (LP.mu_step c U ls (L.ENext 0) (l1_inv _ _ H1) H2) as [Mu1 Mu2]. cbn [L.step] in Mu1, Mu2.
-    pose proof (QOK_next U g lk qr c ls Qx) as Qn.
-    destruct (L.next_action c ls 0) as [ls' a] eqn:En. cbn [fst snd] in Mu1, Mu2, Qn.
+    pose proof (LP.mu_step c U ls (L.ENext (now s)) (l1_inv _ _ H1) H2) as [Mu1 Mu2]. cbn [L.step] in Mu1, Mu2.
+    pose proof (QOK_next U g lk qr c ls (now s) Qx) as Qn.
+    destruct (L.next_action c ls (now s)) as [ls' a] eqn:En. cbn [fst snd] in Mu1, Mu2, Qn.
     destruct a as [| p | | l | p r | | l]; cbn [fst snd].
     + split; [exact HB | split; [lia | discriminate]].
     + (* SendMessage *)
-      destruct (next_send_shape _ _ _ _ En) as [Hd' _]. destruct (next_send_cands _ _ _ _ En) as [_ Hr].
+      destruct (next_send_shape _ _ _ _ _ En) as [Hd' _]. destruct (next_send_cands _ _ _ _ _ En) as [_ Hr].
       assert (Lt : (LP.mu U ls' < LP.mu U ls)%nat) by (apply Mu2; left; exists p; reflexivity).
       destruct (BE_set_q U g s q _ (QLookup lk qr c ls') HB Eq (Qn Hd')) as [B1 E1]. cbn [qW] in E1. rewrite Hr in E1.
       pose proof (open_or_dial_eng (set_q s q (QLookup lk qr c ls')) p (mkAct AFind q)) as Ee.
@@ -714,12 +714,12 @@ Proof.
       * assert (R : wprel U g s2 (eng_fail s2 q p)) by (apply prel_fail; [apply wrel_refl | apply wrel_trans | apply wrel_sf | apply wrel_rf]).
         destruct (wprel_BE U g _ _ R B2) as [B3 E3]. split; [exact B3 |]. unfold M. rewrite mG_eng_fail. split; [lia | intros _; lia].
     + exact Del.
-    + assert (El : l = map snd (L.resps ls)) by (apply (next_found c ls 0); rewrite En; reflexivity).
+    + assert (El : l = map snd (L.resps ls)) by (apply (next_found c ls (now s)); rewrite En; reflexivity).
       assert (Hl : (length l <= kn g)%nat).
       { subst l. rewrite map_length. unfold kn. rewrite <- H3. lia. }
       destruct lk; first [exact Del | apply Trk; exact Hl].
     + (* partial result *)
-      destruct (next_partial_shape _ _ _ _ _ En) as [Hd' _]. destruct (next_partial_recq _ _ _ _ _ En) as [_ Hr].
+      destruct (next_partial_shape _ _ _ _ _ _ En) as [Hd' _]. destruct (next_partial_recq _ _ _ _ _ _ En) as [_ Hr].
       destruct (BE_set_q U g s q _ (QLookup lk qr c ls') HB Eq (Qn Hd')) as [B1 E1]. cbn [qW] in E1.
       split; [exact B1 |]. unfold M. change (mG (set_q s q (QLookup lk qr c ls'))) with (mG s). split; [lia | intros _; lia].
     + exact Del.
@@ -881,6 +881,7 @@ Proof.
   - (* executor completion *)
     pose proof (on_future_M U g s id r HB) as F. destruct (on_future g s id r) as [s' o]. cbn [fst] in *.
     apply F. destruct r; try exact I. exact Hu.
+  - cbn [fst]. exact Same.
 Qed.
 
 (* ------------------------------------------------------------------ fair schedules are short *)
@@ -890,19 +891,22 @@ Fixpoint evs_in_U (U : list N) (es : list ev) : Prop :=
 
 Lemma fair_bound : forall U g es s,
   BE U g s -> evs_in_U U es -> fair_run g s es ->
-  (length es + M U g (fst (run g s es)) <= M U g s)%nat /\ BE U g (fst (run g s es)).
+  (length (work es) + M U g (fst (run g s es)) <= M U g s)%nat /\ BE U g (fst (run g s es)).
 Proof.
   intros U g es. induction es as [| e t IH]; intros s HB Hu Hf; [cbn; split; [lia | exact HB] |].
   destruct Hu as [Hu1 Hu2]. destruct Hf as (F1 & F2 & F3).
-  destruct (step_M U g s e HB Hu1 F1) as (B1 & L1 & S1). specialize (S1 F2).
-  destruct (IH _ B1 Hu2 F3) as [I1 I2]. rewrite run_cons. cbn [fst length]. split; [lia | exact I2].
+  destruct (step_M U g s e HB Hu1 F1) as (B1 & L1 & S1).
+  destruct (IH _ B1 Hu2 F3) as [I1 I2]. rewrite run_cons. cbn [fst]. split; [| exact I2].
+  unfold work in *. cbn [filter]. destruct F2 as [F2 | F2].
+  - rewrite F2. cbn [negb]. lia.
+  - specialize (S1 F2). destruct (is_tick e); cbn [negb length]; lia.
 Qed.
 
 (* when nothing productive is enabled, nothing is owed and the engine is drained *)
-Lemma has_action_serve : forall s q x, aget q (eng s) = Some x -> has_action x = true -> snd (serve s q) = true.
+Lemma has_action_serve : forall s q x, aget q (eng s) = Some x -> has_action (now s) x = true -> snd (serve s q) = true.
 Proof.
   intros s q x A H. unfold serve. rewrite A. destruct x as [lk qr c ls | qr ps | pv pd n need]; cbn [has_action] in H.
-  - destruct (L.next_action c ls 0) as [ls' a]. cbn [snd] in H. destruct a; try discriminate H; try reflexivity.
+  - destruct (L.next_action c ls (now s)) as [ls' a]. cbn [snd] in H. destruct a; try discriminate H; try reflexivity.
     + destruct (open_or_dial (set_q s q (QLookup lk qr c ls')) p (mkAct AFind q)) as [s2 ok]. reflexivity.
     + destruct lk; reflexivity.
   - reflexivity.
@@ -938,7 +942,7 @@ Proof.
     + destruct O as (f & H1 & _). destruct (find_fut_some f _ H1) as [f' Hf]. destruct (res_exists (f_kind f')) as [r Hr].
       apply (Hs (EFut (f_id f) r)). cbn. eauto.
   - unfold quiescent. apply forallb_forall. intros [q x] Hx. cbn [snd].
-    destruct (has_action x) eqn:E; [| reflexivity]. exfalso.
+    destruct (has_action (now s) x) eqn:E; [| reflexivity]. exfalso.
     apply (Hs (EServe q)). cbn. eapply has_action_serve; [apply in_aget; eassumption | exact E].
 Qed.
 
@@ -1014,7 +1018,7 @@ Lemma fair_terminates : forall U g m es0 es1 q,
   1 <= g_alpha g -> fresh_ids [] (es0 ++ es1) -> cmds_ok g es0 -> evs_in_U U es0 -> evs_in_U U es1 ->
   let s0 := fst (run g (st0 m) es0) in
   fair_run g s0 es1 ->
-  (length es1 <= budget (length U) g es0)%nat /\
+  (length (work es1) <= budget (length U) g es0)%nat /\
   (stuck (fst (run g s0 es1)) ->
    terminals q (snd (run g (st0 m) (es0 ++ es1))) = started q (es0 ++ es1) /\
    (started q (es0 ++ es1) <= 1)%nat).
